@@ -1154,6 +1154,7 @@ where
             #[cfg(flurry_verif)]
             crate::verif::raw(crate::verif::Kind::Yield, &self.transfer_index, 0, 0, "transfer_index");
             if sc >= 0
+                || (sc >> RESIZE_STAMP_SHIFT) != (rs >> RESIZE_STAMP_SHIFT)
                 || sc == rs + MAX_RESIZERS
                 || sc == rs + 1
                 || self.transfer_index.load(Ordering::SeqCst) <= 0
